@@ -250,6 +250,25 @@ def wfL : List Inv → Bool
   | c :: cs => c.wf && wfL cs
 end
 
+mutual
+/-- `firstQueuedOperationPriority` of every invocation below the root is what
+`updateFirstOperationPriority` last stored: the priority of `queuedOperations[0]` when there are
+directly queued operations (exact: every change of that heap refreshes the cache), otherwise the
+cached priority of one of the queued children (the one that was the heap root at the last
+enqueue/dequeue below; exact when there is a single queued child).  The root invocation's cache is
+never written nor read. -/
+def Inv.cacheOk : Inv → Bool
+  | .mk _ _ _ _ _ _ _ _ _ kids =>
+    kids.all (fun c =>
+      match c.ops with
+      | o :: _ => c.prio == o.prio
+      | [] => c.queued.isEmpty || c.kids.any (fun g => c.queued.contains g.key && g.prio == c.prio)) &&
+    cacheOkL kids
+def cacheOkL : List Inv → Bool
+  | [] => true
+  | c :: cs => c.cacheOk && cacheOkL cs
+end
+
 /-! ### `task.schedule` -/
 
 /-- The invocation at a path of keys below `i`. -/
